@@ -258,6 +258,37 @@ theorem quiet_call (sub : Bool) (p : Patch) (o : Obj) (s : Server) (ho : s.obj =
   rw [b, c, applyFns_fins_congr p.fns F o a] at this
   exact this
 
+/-- The carry-forward cycle whatever opens its patch (`mem`), any dict content, nobody interfering, computed for
+    the object the server holds: one application of `mem ++ newfns` to the fresh finalizer list, nothing remains. -/
+theorem quiet_cycleOf (sub : Bool) (mem : Option (List Fn)) (fields : Kvs) (newfns : List Fn) (o : Obj) (s : Server)
+    (ho : s.obj = some o) (hns : ¬ (o.marked = true ∧ o.fins = [])) :
+    (cycleOf false sub mem fields newfns o Env.quiet s).2 = none ∧
+    ((∃ o', (cycleOf false sub mem fields newfns o Env.quiet s).1.server.obj = some o' ∧ o'.uid = o.uid ∧
+        o'.fins = (applyFns (mem.getD [] ++ newfns) o).fins) ∨
+     ((cycleOf false sub mem fields newfns o Env.quiet s).1.server.obj = none ∧ o.marked = true ∧
+        (applyFns (mem.getD [] ++ newfns) o).fins = [])) := by
+  by_cases hemp : (nextPatch mem fields newfns).isEmpty = true
+  · have e : cycleOf false sub mem fields newfns o Env.quiet s = (⟨[], s, .ok none none⟩, none) := by
+      simp [cycleOf, hemp]
+    have hf : mem.getD [] ++ newfns = [] := by
+      simp only [Patch.isEmpty, nextPatch, Bool.and_eq_true, List.isEmpty_iff] at hemp
+      exact hemp.2
+    rw [e, hf]
+    exact ⟨rfl, Or.inl ⟨o, ho, rfl, rfl⟩⟩
+  · have e : cycleOf false sub mem fields newfns o Env.quiet s =
+        (patchObj sub (nextPatch mem fields newfns) o Env.quiet s,
+         memoryAfter false mem (patchObj sub (nextPatch mem fields newfns) o Env.quiet s).outcome) := by
+      simp [cycleOf, hemp]
+    rw [e]
+    obtain ⟨hh, hout⟩ := quiet_call sub (nextPatch mem fields newfns) o s ho hns
+    unfold patchObj
+    constructor
+    · rcases hout with ⟨st, e'⟩ | ⟨st, e'⟩ <;> rw [e'] <;> rfl
+    · rw [(finish_reqs _ _).2]
+      rcases hh with ⟨x, hx, hu, _, hfx⟩ | ⟨hn, hm, hl⟩
+      · exact Or.inl ⟨x, hx, hu, hfx⟩
+      · exact Or.inr ⟨hn, hm, hl⟩
+
 /-! ## unfoldings of the carry rule (corollaries, not counted as property theorems) -/
 
 /-- What is carried: after a call that returned a remaining patch, `process_resource_event` keeps
@@ -312,5 +343,48 @@ theorem framework_fns_not_carried (sub : Bool) (mem : Option (List Fn)) (fields 
           exact hf.2
     · cases hl
     · exact hmem l hl f hf
+
+/-! ## the variant of 608a57d: carried fns that are fulfilled already are forgotten at the head of the cycle -/
+
+theorem settled_none (o : Obj) : settled none o = none := rfl
+
+theorem settled_of_ops (l : List Fn) (o : Obj) (h : noOps l o = false) : settled (some l) o = some l := by
+  simp [settled, h]
+
+theorem settled_of_noOps (l : List Fn) (o : Obj) (h : noOps l o = true) : settled (some l) o = none := by
+  simp [settled, h]
+
+theorem noOps_of_finsChanged (l : List Fn) (o : Obj) (h : finsChanged o (applyFns l o) = true) : noOps l o = false := by
+  simp [noOps, h]
+
+theorem noOps_fins (l : List Fn) (o : Obj) (h : noOps l o = true) : (applyFns l o).fins = o.fins := by
+  simp only [noOps, Bool.and_eq_true, Bool.not_eq_true', finsChanged] at h
+  simpa using h.1
+
+/-- whatever `settled` leaves is a sublist-or-nothing of the memory: a member of it was in the memory -/
+theorem mem_settled {f : Fn} {mem : Option (List Fn)} {o : Obj} (h : f ∈ (settled mem o).getD []) : f ∈ mem.getD [] := by
+  cases mem with
+  | none => simp [settled] at h
+  | some l =>
+    simp only [settled] at h
+    split at h
+    · simp at h
+    · exact h
+
+/-- one application of `carried ++ new` to the fresh finalizer list is one application of what `settled` kept
+    `++ new`: the forgotten part changes nothing there -/
+theorem settled_fins (mem : Option (List Fn)) (newfns : List Fn) (o : Obj) :
+    (applyFns ((settled mem o).getD [] ++ newfns) o).fins = (applyFns (mem.getD [] ++ newfns) o).fins := by
+  cases mem with
+  | none => rfl
+  | some l =>
+    by_cases h : noOps l o = true
+    · rw [settled_of_noOps l o h]
+      simp only [Option.getD_none, Option.getD_some, List.nil_append]
+      have e : applyFns (l ++ newfns) o = applyFns newfns (applyFns l o) := by
+        simp [applyFns, List.foldl_append]
+      rw [e]
+      exact applyFns_fins_congr newfns o (applyFns l o) (noOps_fins l o h).symm
+    · rw [settled_of_ops l o (by simpa using h)]
 
 end Kopf.C08
